@@ -159,6 +159,39 @@ async fn differential(steps: &[Step], label: &str) -> Option<Found> {
     None
 }
 
+
+/// the OPEN C03 finding (fanout .. ensures#13): a command naming TWO keys is dispatched whole to the first key's shard, so when
+/// the two keys have different homes the second key is read / written on the wrong shard.  Witness battery only (never part of
+/// the default battery): sessions over key pairs, 1 shard vs N shards; the first pair that differs is reported.
+async fn two_key_witness() -> Option<Found> {
+    let pool: Vec<String> = (0..24).map(|i| format!("k{}", i)).collect();
+    let mk = |kind: usize, a: &str, b: &str| -> (String, Vec<Command>) {
+        let (a, b) = (a.to_string(), b.to_string());
+        match kind {
+            0 => (format!("SET {a} v1 ; RENAME {a} {b} ; GET {b} ; GET {a}"), vec![Command::set(a.clone(), sds("v1")), Command::Rename(a.clone(), b.clone()), Command::Get(b.clone()), Command::Get(a.clone())]),
+            1 => (format!("SET {a} v1 ; RENAMENX {a} {b} ; GET {b}"), vec![Command::set(a.clone(), sds("v1")), Command::RenameNx(a.clone(), b.clone()), Command::Get(b.clone())]),
+            2 => (format!("RPUSH {a} x y ; RPOPLPUSH {a} {b} ; LRANGE {b} 0 -1"), vec![Command::RPush(a.clone(), vec![sds("x"), sds("y")]), Command::RPopLPush(a.clone(), b.clone()), Command::LRange(b.clone(), 0, -1)]),
+            3 => (format!("RPUSH {a} x y ; LMOVE {a} {b} LEFT RIGHT ; LRANGE {b} 0 -1"), vec![Command::RPush(a.clone(), vec![sds("x"), sds("y")]), Command::LMove { source: a.clone(), dest: b.clone(), wherefrom: "LEFT".into(), whereto: "RIGHT".into() }, Command::LRange(b.clone(), 0, -1)]),
+            _ => (format!("SET {b} old ; MSETNX {a} n1 {b} n2 ; GET {a} ; GET {b}"), vec![Command::set(b.clone(), sds("old")), Command::MSetNx(vec![(a.clone(), sds("n1")), (b.clone(), sds("n2"))]), Command::Get(a.clone()), Command::Get(b.clone())]),
+        }
+    };
+    for kind in 0..5 {
+        for n in SHARDS {
+            for i in 0..pool.len() { for j in 0..pool.len() { if i == j { continue; }
+                let (text, cmds) = mk(kind, &pool[i], &pool[j]);
+                let one = ShardedActorState::with_shards(1);
+                let many = ShardedActorState::with_shards(n);
+                let mut r1 = Vec::new(); let mut rn = Vec::new();
+                for c in &cmds { r1.push(show_resp(&one.execute(c).await)); rn.push(show_resp(&many.execute(c).await)); }
+                if r1 != rn {
+                    return Some(Found { input: format!("{} shards: {}", n, text), observed: format!("replies [{}]", rn.join(", ")), required: format!("the 1-shard replies [{}] (a two-key command must reach both keys wherever they live)", r1.join(", ")) });
+                }
+            } }
+        }
+    }
+    None
+}
+
 fn key_pool() -> Vec<String> {
     let mut ks: Vec<String> = vec!["".into(), "a".into(), "b".into(), "key".into(), "foo:bar".into(), "with space".into(), "tab\tkey".into(), "nul\0key".into(),
         "ключ".into(), "键".into(), "🔑key".into(), "é".into(), "e\u{301}".into(), "ÿ".into(), "\u{7f}".into(), "\u{80}".into(), "\u{ff}\u{ff}".into(),
@@ -304,9 +337,11 @@ fn random_session(rng: &mut Rng, pool: &[String]) -> Vec<Step> {
     s
 }
 
-pub fn search(_pid: &str, _oid: &str, seed: u64) -> Option<Found> {
+pub fn search(_pid: &str, oid: &str, seed: u64) -> Option<Found> {
     let rt = tokio::runtime::Builder::new_current_thread().enable_all().build().ok()?;
+    let witness = oid.contains("ensures#13");
     rt.block_on(async move {
+        if witness { return two_key_witness().await; }
         let pool = key_pool();
         if let Some(f) = cross_path(&pool).await { return Some(f); }
         if let Some(f) = differential(&structured_session(&pool), "structured session").await { return Some(f); }
